@@ -317,6 +317,18 @@ pub fn conform<const K: usize>(t: &AffTree<K>, s: &Snap, x: &[Q], exact_values: 
     conform_opt(t, s, x, exact_values, true)
 }
 
+impl Snap {
+    /// every stored number is a multiple of 2^-10 of magnitude at most 2^20: f64 evaluation of such a tree at a
+    /// small dyadic point is exact, so values may be compared bit for bit
+    pub fn is_small_dyadic(&self) -> bool {
+        let ok = |v: &Q| match v {
+            Q::S(n, d) => *d <= 1024 && (*d as u128).is_power_of_two() && n.abs() <= (1i128 << 20) * *d,
+            _ => false,
+        };
+        self.nodes.values().all(|n| n.mat.iter().flatten().all(ok) && n.bias.iter().all(ok))
+    }
+}
+
 /// Conformance at the witness of a face and, for every hyperplane the face lies on, at points
 /// 2^-30 and 2^-40 to either side of it (distances far below the library's 1e-8 containment
 /// tolerance) and, for axis-parallel hyperplanes, at the neighbouring floating-point numbers:
